@@ -15,7 +15,7 @@ def lit(b):
     return b"{%d}\r\n%s" % (len(b), b)
 
 
-TEXTS = [None, b"done", b"", b'with "quotes" and \\ backslash', b"\xc3\xa9t\xc3\xa9", b"(not a code)", b"{3}", b"OK NO BYE", b"two\r\nlines"]
+TEXTS = [None, b"done", b"", b'with "quotes" and \\ backslash', b"\xc3\xa9t\xc3\xa9", b"(not a code)", b"{3}", b"OK NO BYE", b"two\r\nlines", b"near ${1} {2} end"]
 CODES = [None, b"QUOTA", b"QUOTA/MAXSIZE", b"NONEXISTENT", b"ACTIVE", b"ALREADYEXISTS", b"TRYLATER", b"WARNINGS", b'TAG "abc"', b'TAG "a)b\\"c"', b"x-vendor/sub-code_1"]
 
 
